@@ -41,6 +41,9 @@ def configs(ss, thorough):
     # a long run (every distribution is called well over 100 times before the late pauses)
     cf['long-run-days'] = lambda seed: ss.Sim(n_agents=40, diseases=ss.SIS(beta=ss.beta(0.03, 'day'), dur_inf=ss.dur(10, 'day')), networks=ss.RandomNet(n_contacts=4), analyzers=Rec(),
                                               unit='day', dt=1.0, start='2020-01-01', dur=150, rand_seed=seed, verbose=0)
+    # durations drawn through SciPy samplers (weibull, gamma), several times after every pause
+    cf['sis-sir-scipy-durations'] = lambda seed: ss.Sim(n_agents=120, diseases=[ss.SIS(dur_inf=ss.weibull(c=2.0, scale=4.0), beta=0.15, init_prev=0.2), ss.SIR(dur_inf=ss.gamma(a=2.0, scale=2.0), beta=0.15, init_prev=0.1)],
+                                                        networks=ss.RandomNet(n_contacts=4), dur=8, rand_seed=seed, verbose=0)
     cf['sis-treatment-queue'] = mk_queue      # a capacity-limited treatment queue (first come, first served): who is treated after a restore depends on the queue order surviving the copy
     if thorough:
         cf['two-diseases-erdos'] = lambda seed: ss.Sim(n_agents=80, diseases=[ss.SIR(), ss.SIS(beta=0.1)], networks=ss.ErdosRenyiNet(p=0.05),
